@@ -1,5 +1,7 @@
 use std::collections::HashSet;
 
+use indexmap::IndexSet;
+
 use crate::{
     Context, Object,
     model::{__EnumValue, __Field, __InputValue, __TypeKind},
@@ -147,11 +149,9 @@ impl<'a> __Type<'a> {
         {
             Some(
                 self.registry
-                    .implements
-                    .get(name)
-                    .unwrap_or(&Default::default())
-                    .iter()
-                    .filter(|ty| self.visible_types.contains(ty.as_str()))
+                    .all_implements(name)
+                    .into_iter()
+                    .filter(|ty| self.visible_types.contains(ty))
                     .map(|ty| __Type::new(self.registry, self.visible_types, ty))
                     .collect(),
             )
@@ -164,10 +164,33 @@ impl<'a> __Type<'a> {
         if let TypeDetail::Named(registry::MetaType::Interface { possible_types, .. })
         | TypeDetail::Named(registry::MetaType::Union { possible_types, .. }) = &self.detail
         {
+            // the possible types of an interface are object types: an
+            // interface among its implementors stands for the objects
+            // implementing that interface
+            let is_interface = matches!(
+                &self.detail,
+                TypeDetail::Named(registry::MetaType::Interface { .. })
+            );
+            let mut objects = IndexSet::new();
+            let mut seen = HashSet::new();
+            let mut pending: Vec<&str> = possible_types.iter().rev().map(String::as_str).collect();
+            while let Some(type_name) = pending.pop() {
+                match self.registry.types.get(type_name) {
+                    Some(registry::MetaType::Interface { possible_types, .. }) if is_interface => {
+                        if seen.insert(type_name) {
+                            pending.extend(possible_types.iter().rev().map(String::as_str));
+                        }
+                    }
+                    Some(_) => {
+                        objects.insert(type_name);
+                    }
+                    None => {}
+                }
+            }
             Some(
-                possible_types
-                    .iter()
-                    .filter(|ty| self.visible_types.contains(ty.as_str()))
+                objects
+                    .into_iter()
+                    .filter(|ty| self.visible_types.contains(ty))
                     .map(|ty| __Type::new(self.registry, self.visible_types, ty))
                     .collect(),
             )
